@@ -75,7 +75,7 @@ func main() {
 					m.N1 = append(m.N1, x)
 				}
 				if r.Intn(4) > 0 {
-					x := 1 + r.Intn(3)
+					x := []int{1, 2, 3, 1, 2, 0, -1}[r.Intn(7)] // weights: mostly positive, sometimes zero or negative
 					d.N["n2"] = []int{x}
 					m.N2 = []int{x}
 				}
@@ -238,6 +238,7 @@ func main() {
 					mx := bk.Metric("max1")
 					e := map[string]any{"lo": bounds[i][0], "hi": bounds[i][1], "count": int(bk.Metric("count")), "sum2": int(math.Round(bk.Metric("sum2"))),
 						"sum3":     int(math.Round(bk.Metric("sum3"))),
+						"card":     int(math.Round(bk.Metric("card"))), // nested cardinality of k1: one sketch PER bucket
 						"max1none": math.IsInf(mx, 0), "max1": 0}
 					if !math.IsInf(mx, 0) {
 						e["max1"] = int(mx)
@@ -283,6 +284,7 @@ func addAggs(add func(string, search.Aggregation), tsize int, bounds, dbounds []
 	ra.AddAggregation("sum2", aggregations.Sum(n2))
 	ra.AddAggregation("max1", aggregations.Max(n1))
 	ra.AddAggregation("sum3", aggregations.Sum(search.Field("n3")))
+	ra.AddAggregation("card", aggregations.Cardinality(search.Field("k1")))
 	add("ranges", ra)
 	da := aggregations.DateRanges(search.Field("t1"))
 	for _, b := range dbounds {
